@@ -377,19 +377,42 @@ var comparisonOperations = map[string]interface{}{
 	"<=": leq,
 }
 
+// Every helper receives the record as args[0], the value selected by the
+// path as args[1] and the evaluated parameters of the call after that.
+// A helper that is called with too few arguments or with an argument of
+// the wrong dynamic type evaluates to false instead of panicking.
+func helperObj(args []interface{}) interface{} {
+	if len(args) < 1 {
+		return nil
+	}
+	return args[0]
+}
+
 func startsWith(args ...interface{}) (interface{}, interface{}) {
+	if len(args) < 3 {
+		return helperObj(args), false
+	}
 	return args[0], strings.HasPrefix(stringOperand(args[1]), stringOperand(args[2]))
 }
 
 func endsWith(args ...interface{}) (interface{}, interface{}) {
+	if len(args) < 3 {
+		return helperObj(args), false
+	}
 	return args[0], strings.HasSuffix(stringOperand(args[1]), stringOperand(args[2]))
 }
 
 func contains(args ...interface{}) (interface{}, interface{}) {
+	if len(args) < 3 {
+		return helperObj(args), false
+	}
 	return args[0], strings.Contains(stringOperand(args[1]), stringOperand(args[2]))
 }
 
 func datetime(args ...interface{}) (interface{}, interface{}) {
+	if len(args) < 3 {
+		return helperObj(args), false
+	}
 	layout := "1/2/2006, 3:04:05.000 PM"
 	t, err := time.Parse(layout, stringOperand(args[2]))
 	if err != nil {
@@ -404,10 +427,17 @@ func datetime(args ...interface{}) (interface{}, interface{}) {
 func limit(args ...interface{}) (interface{}, interface{}) {
 	// Returns true no matter what. Evaluated on compile-time,
 	// limits the number of records returned as a result of the query.
-	return args[0], true
+	return helperObj(args), true
 }
 
 func _json(args ...interface{}) (interface{}, interface{}) {
+	if len(args) < 3 {
+		return helperObj(args), false
+	}
+	jsonPath, ok := args[2].(*jp.Expr)
+	if !ok || jsonPath == nil {
+		return args[0], false
+	}
 	jsonString := stringOperand(args[1])
 
 	// Try to base64 decode the JSON string
@@ -420,7 +450,7 @@ func _json(args ...interface{}) (interface{}, interface{}) {
 	if err != nil {
 		return args[0], false
 	}
-	result := args[2].(*jp.Expr).Get(obj)
+	result := jsonPath.Get(obj)
 
 	if len(result) < 1 {
 		return args[0], false
@@ -429,8 +459,15 @@ func _json(args ...interface{}) (interface{}, interface{}) {
 }
 
 func xml(args ...interface{}) (interface{}, interface{}) {
+	if len(args) < 3 {
+		return helperObj(args), false
+	}
+	jsonPath, ok := args[2].(*jp.Expr)
+	if !ok || jsonPath == nil {
+		return args[0], false
+	}
 	xmlString := stringOperand(args[1])
-	xmlPath := args[2].(*jp.Expr).String()
+	xmlPath := jsonPath.String()
 
 	// Try to base64 decode the XML string
 	base64Decoded, err := base64.StdEncoding.DecodeString(xmlString)
@@ -451,7 +488,16 @@ func xml(args ...interface{}) (interface{}, interface{}) {
 
 	value, ok := result[0].(string)
 	if !ok {
-		value = result[0].(map[string]interface{})["#text"].(string)
+		// An element with attributes or children: its text, if it has any
+		var element map[string]interface{}
+		element, ok = result[0].(map[string]interface{})
+		if !ok {
+			return args[0], false
+		}
+		value, ok = element["#text"].(string)
+		if !ok {
+			return args[0], false
+		}
 	}
 	return args[0], value
 }
@@ -636,6 +682,9 @@ func setMatches(obj interface{}, jsonPath jp.Expr, value interface{}) error {
 }
 
 func redact(args ...interface{}) (interface{}, interface{}) {
+	if len(args) < 2 {
+		return helperObj(args), false
+	}
 	obj := args[0]
 	for _, param := range args[2:] {
 		paths := strings.Split(stringOperand(param), ".json()")
@@ -649,7 +698,14 @@ func redact(args ...interface{}) (interface{}, interface{}) {
 }
 
 func timeHelper(args ...interface{}) (interface{}, interface{}) {
-	timestamp := args[2].(time.Time).UnixNano() / int64(time.Millisecond)
+	if len(args) < 3 {
+		return helperObj(args), false
+	}
+	t, ok := args[2].(time.Time)
+	if !ok {
+		return args[0], false
+	}
+	timestamp := t.UnixNano() / int64(time.Millisecond)
 	return args[0], timestamp
 }
 
